@@ -2423,6 +2423,18 @@ def _match_next(data: bytes, keytype: bytes, public: bool = False) -> \
     return None, (), len(data)
 
 
+def _make_private(handler: Type[SSHKey], key_params: object) -> SSHKey:
+    """Construct a private key, reporting impossible key parameters"""
+
+    try:
+        return handler.make_private(key_params)
+    except KeyImportError:
+        raise
+    except (ValueError, OverflowError):
+        # Well-formed encoding of impossible key parameters
+        raise KeyImportError('Invalid private key') from None
+
+
 def _decode_pkcs1_private(
         pem_name: bytes, key_data: object,
         unsafe_skip_rsa_key_validation: Optional[bool]) -> SSHKey:
@@ -2442,7 +2454,7 @@ def _decode_pkcs1_private(
         key_params = cast(Tuple, key_params) + \
             (unsafe_skip_rsa_key_validation,)
 
-    return handler.make_private(key_params)
+    return _make_private(handler, key_params)
 
 
 def _decode_pkcs1_public(pem_name: bytes, key_data: object) -> SSHKey:
@@ -2487,7 +2499,7 @@ def _decode_pkcs8_private(
             key_params = cast(Tuple, key_params) + \
                 (unsafe_skip_rsa_key_validation,)
 
-        return handler.make_private(key_params)
+        return _make_private(handler, key_params)
     else:
         raise KeyImportError('Invalid PKCS#8 private key')
 
@@ -2611,7 +2623,7 @@ def _decode_openssh_private(
             key_params = cast(Tuple, key_params) + \
                 (unsafe_skip_rsa_key_validation,)
 
-        key = handler.make_private(key_params)
+        key = _make_private(handler, key_params)
         key.set_comment(comment)
         return key
     except PacketDecodeError:
